@@ -1295,6 +1295,70 @@ std::vector<std::string> SmallCorpus(const std::string &repo) {
   return out;
 }
 
+// Runs the plan in a child of the calling process when isolation is on (see
+// above); the worker then never executes codec code itself.
+uint64_t RunPlanIsolated(const EnvPlan &p, const std::string &repo,
+                         std::vector<Finding> *findings, Json *trace,
+                         uint64_t *n_calls, uint64_t *reused_ops, bool *abandoned) {
+  if (!AllocArenaEverywhere())
+    return RunPlan(p, repo, findings, trace, n_calls, reused_ops, abandoned, false);
+  int fd[2];
+  if (pipe(fd) != 0) abort();
+  fflush(nullptr);
+  const pid_t pid = fork();
+  if (pid == 0) {
+    prctl(PR_SET_PDEATHSIG, SIGKILL);
+    close(fd[0]);
+    std::vector<Finding> fs;
+    Json tr = Json::Array();
+    uint64_t c = 0, r = 0;
+    bool ab = false;
+    const uint64_t h = RunPlan(p, repo, &fs, trace ? &tr : nullptr, &c, &r, &ab, true);
+    Json j = Json::Object();
+    j["h"] = Hex64(h);
+    j["c"] = static_cast<unsigned long long>(c);
+    j["r"] = static_cast<unsigned long long>(r);
+    j["ab"] = ab ? 1 : 0;
+    Json fa = Json::Array();
+    for (const Finding &f : fs) {
+      Json e = Json::Object();
+      e["cls"] = f.cls;
+      e["sig"] = f.sig;
+      e["detail"] = f.detail;
+      e["op"] = static_cast<unsigned long long>(f.op);
+      fa.push(e);
+    }
+    j["f"] = fa;
+    j["tr"] = tr;
+    const std::string text = j.Dump();
+    EnvWriteAll(fd[1], text.data(), text.size());
+    _exit(0);
+  }
+  close(fd[1]);
+  std::string text;
+  EnvReadAll(fd[0], &text);
+  close(fd[0]);
+  int status = 0;
+  waitpid(pid, &status, 0);
+  Json j;
+  if (!WIFEXITED(status) || WEXITSTATUS(status) != 0 || !Json::Parse(text, &j))
+    EnvDieLike(status);
+  *n_calls = j.get("c").U64();
+  *reused_ops = j.get("r").U64();
+  *abandoned = j.get("ab").Int() != 0;
+  const Json &fa = j.get("f");
+  for (size_t i = 0; i < fa.size(); ++i) {
+    Finding f;
+    f.cls = fa.at(i).get("cls").Str();
+    f.sig = fa.at(i).get("sig").Str();
+    f.detail = fa.at(i).get("detail").Str();
+    f.op = static_cast<size_t>(fa.at(i).get("op").U64());
+    findings->push_back(f);
+  }
+  if (trace) *trace = j.get("tr");
+  return strtoull(j.get("h").Str().c_str(), nullptr, 16);
+}
+
 Json FindingsToJson(const std::vector<Finding> &fs, const EnvPlan &p, uint64_t idx) {
   Json arr = Json::Array();
   std::map<std::string, int> seen;
@@ -1353,7 +1417,11 @@ int EnvMain(const std::map<std::string, std::string> &a, const std::string &cmd)
       EnvPlan p = GeneratePlan(mix64(seed, 0xe0e0), 0, corpus);
       std::vector<Finding> f;
       uint64_t c = 0, r = 0;
-      { bool ab; RunPlan(p, repo, &f, nullptr, &c, &r, &ab); }
+      // (With process isolation the worker itself stays cold.)
+      if (!AllocArenaEverywhere()) {
+        bool ab;
+        RunPlan(p, repo, &f, nullptr, &c, &r, &ab);
+      }
     };
     cb.run = [&](uint64_t idx, std::string *out) {
       if (sample_mod > 1 && idx % sample_mod != 0) return;
@@ -1364,7 +1432,8 @@ int EnvMain(const std::map<std::string, std::string> &a, const std::string &cmd)
       uint64_t c = 0, r = 0;
       Json trace = Json::Array();
       bool ab = false;
-      const uint64_t h = RunPlan(p, repo, &fs, idx < 3 ? &trace : nullptr, &c, &r, &ab);
+      const uint64_t h =
+          RunPlanIsolated(p, repo, &fs, idx < 3 ? &trace : nullptr, &c, &r, &ab);
       ++w_runs;
       if (ab) ++w_abandoned;
       w_calls += c;
@@ -1509,7 +1578,7 @@ int EnvMain(const std::map<std::string, std::string> &a, const std::string &cmd)
       uint64_t c = 0, r = 0;
       Json trace = Json::Array();
       bool ab = false;
-      const uint64_t h = RunPlan(p, repo, &fs, &trace, &c, &r, &ab);
+      const uint64_t h = RunPlanIsolated(p, repo, &fs, &trace, &c, &r, &ab);
       Json res = Json::Object();
       res["t"] = "result";
       res["n"] = static_cast<unsigned long long>(n);
